@@ -3,7 +3,7 @@
    errors are fatal (an error returned from BeginBlock/EndBlock is turned into a
    panic by the multiplexer).  [Fatal] = the Go function returns an error. *)
 From Verif Require Import Lib.Base NoHalt.Model NoHalt.Proofs NoHalt.SeqProofs NoHalt.TallyProofs.
-From Verif Require Import Sched.Elect NoHalt.ElectProofs NoHalt.GovProofs NoHalt.UpdProofs.
+From Verif Require Import Sched.Elect NoHalt.ElectProofs NoHalt.GovProofs NoHalt.UpdProofs NoHalt.InMsgProofs.
 
 (* disburseFeesP never fails, for any fee total and any weights that pass
    ConsensusParameters.SanityCheck (not all three zero), proposer known or not *)
@@ -412,3 +412,45 @@ Theorem voting_power_floor_before_scaling_refuted :
     In (k, 0) (diff_validators cur pend) /\ ~ In k (map fst cur).
 Proof. split; [exact floor_first_zero_power|exact floor_first_refuted]. Qed.
 Print Assumptions voting_power_floor_before_scaling_refuted.
+
+(* ---- incoming runtime messages at round finalization ---- *)
+
+(* for a queue whose size counter equals its (distinct) stored messages, finalization never
+   fails FATALLY whatever in-message count the committee committed -- 0, the queue size, more
+   than the queue holds, 2^32-1 --: with a matching hash the first min(count, size) messages
+   are removed and the invariant is kept, with a mismatching hash the round fails *)
+Theorem incoming_messages_finalization_total :
+  forall r count hash_ok,
+    rq_ok r ->
+    (hash_ok = false /\ finalize_inmsgs r count hash_ok = Ok None) \/
+    exists r1, finalize_inmsgs r count hash_ok = Ok (Some r1) /\ rq_ok r1 /\
+               q_msgs r1 = skipn (N.to_nat count) (q_msgs r).
+Proof. exact finalize_inmsgs_ok. Qed.
+Print Assumptions incoming_messages_finalization_total.
+
+(* SubmitMsg keeps the queue invariant *)
+Theorem incoming_messages_submit_keeps_invariant :
+  forall maxq r r1, rq_ok r -> rq_submit maxq r = Some r1 -> rq_ok r1.
+Proof. exact rq_submit_ok. Qed.
+Print Assumptions incoming_messages_submit_keeps_invariant.
+
+(* finalizing one runtime never fails fatally and never changes another runtime's queue *)
+Theorem incoming_messages_runtimes_independent :
+  forall sys id count hash_ok,
+    (forall r, aget id sys = Some r -> rq_ok r) ->
+    is_fatal (sys_finalize sys id count hash_ok) = false /\
+    forall sys1 other, other <> id -> sys_finalize sys id count hash_ok = Ok sys1 ->
+                       aget other sys1 = aget other sys.
+Proof.
+  split; [apply sys_finalize_total; assumption|].
+  apply sys_finalize_independent.
+Qed.
+Print Assumptions incoming_messages_runtimes_independent.
+
+(* a fetch that runs on into the next runtime's queue is refuted: the size counter reaches zero
+   with messages left -- the fatal "inconsistent queue size" error *)
+Theorem incoming_messages_overrun_refuted :
+  exists r foreign count, rq_ok r /\ finalize_inmsgs_overrun r foreign count = Fatal /\
+                          is_fatal (finalize_inmsgs r count true) = false.
+Proof. exact overrun_refuted. Qed.
+Print Assumptions incoming_messages_overrun_refuted.
